@@ -21,6 +21,60 @@ def optsets(deck, rng):
     return [flags]
 
 
+def paramcard_decks(chk, decks):
+    """The same universe trees with U and FILL given as DATA cards (one entry per cell), which MCNP accepts and the
+    converter does not implement: the run must either convert the deck correctly or refuse it with a diagnostic -
+    never finish with the universes ignored (C05 read together with C17: a refusal writes no wrong volume)."""
+    import random
+    from .. import adeck, conv, deckrun
+    rng = random.Random(chk.seed + 55)
+    jobs, nd = [], {}
+    for d in decks:
+        d = adeck.normalise(d)
+        if any(c['hasftr'] or c['lat'] or c.get('like') for c in d['cells']) or not any(c['fill'] for c in d['cells']):
+            continue
+        d['paramcards'] = True
+        d['pts'] = adeck.grid_points(rng, 60, -11, 11)
+        tid = len(jobs) + 1
+        nd[tid] = d
+        jobs.append({'tid': tid, 'deck': d, 'opts': []})
+        if len(jobs) >= (400 if chk.tier == 'thorough' else 60):
+            break
+    if not jobs:
+        return
+    records = [r for r in conv.run_batch(deckrun.run_deck, jobs, chunksize=8)]
+    good = []
+    nrefused = 0
+    for r in records:
+        if 'machinery_error' in r:
+            chk.machinery(r['machinery_error'])
+        elif r['result'] != 'ok':
+            if r['err'] and r['err']['diag']:
+                nrefused += 1
+            else:
+                chk.violation({'clause': 'incidental_error', 'errtype': r['err']['type'] if r['err'] else None,
+                               'features': 'paramcards', 'where': r['err']['where'] if r['err'] else None, 'moved': False,
+                               'opts': ''}, {'text': r['text'], 'error': r['err'], 'deck': nd[r['tid']], 'clauses': 'owner'})
+        else:
+            good.append(r)
+    if good:
+        try:
+            verdicts = deckrun.validate(chk, good, nd, 'owner')
+        except tlc.TLCFailure as exc:
+            chk.machinery(str(exc))
+            verdicts = {}
+        byid = {r['tid']: r for r in good}
+        for tid, v in sorted(verdicts.items()):
+            for kind, k in v['bad']:
+                if kind in KINDS:
+                    chk.violation({'clause': kind, 'errtype': None, 'where': None, 'features': 'paramcards', 'moved': False,
+                                   'opts': ''},
+                                  {'text': byid[tid]['text'], 'opts': [], 'deck': nd[tid], 'clauses': 'owner',
+                                   'point2': nd[tid]['pts'][k - 1] if k else None})
+        chk.cov['traces_validated_against_impl'] += len(verdicts)
+    chk.extra['paramcard_decks'] = {'run': len(jobs), 'refused_with_diagnostic': nrefused, 'converted': len(good)}
+
+
 def main():
     from .. import replay
     replay.maybe_replay('C05')
@@ -54,6 +108,7 @@ def main():
             chk.violation(sig, {'text': rec['text'], 'opts': meta[tid]['opts'], 'error': err, 'deck': deck,
                                 'clauses': 'owner', 'point2': deck['pts'][k - 1] if k else None})
     chk.cov['distinct_nontrivial'] = nt
+    paramcard_decks(chk, decks)
     ids = sorted(recs)
     for tid in ids[:1] + ids[len(ids) // 2:len(ids) // 2 + 2]:
         chk.sample({'deck_text': recs[tid]['text'], 'opts': meta[tid]['opts'], 'verdict': verdicts.get(tid)})
